@@ -27,7 +27,8 @@ MANIFEST = {
              "and refused_save_leaves_fs_fontinfo_counterexample (a font info that passes validate but is refused by the writer destroys the target: recorded finding). "
              "Correspondence: refused, valid and in-place saves through the real API in a sandbox, result class and post-state compared with the model; oracle: snapshot equality for every "
              "refusal kind in the specification's sense, reported variant among the applicable kinds, store files kept byte for byte."
-             " Second phase: inplace_save_keeps_store_files (load from t, save onto t: every data/images file keeps its bytes although every cell was notLoaded; well-formed FS) and its counterexample on the variant without step 5."),
+             " Second phase: inplace_save_keeps_store_files (load from t, save onto t: every data/images file keeps its bytes although every cell was notLoaded; well-formed FS) and its counterexample on the variant without step 5."
+             " Third phase: generators extended by 12 font-info boundary variants, 5 groups shapes, save_with_options, other spellings of the target, fonts from partial loads."),
     "design_ref": "5 / C08, 4 (abstract file system)",
     "note": "trusted: Lean kernel + 3 standard axioms; harness/driver glue; std::fs vs abstract FS; validators and renderers abstract",
     "technique": "Lean 4 proof about an effect-ordered model of save + differential sandbox snapshots against the real crate",
